@@ -17,6 +17,8 @@ THOROUGH = [dict(Mode="struct", Depth=2, Width=2, NodeKinds={"tuple", "list", "d
 
 BIND_U = dict(Mode="leaf", Depth=1, Width=2, NodeKinds={"tuple", "dict"}, AtomSet={"arr2", "arr3", "arr23"}, SmallDepth=1,
               LeafSet={"uAshV", "arrA", "any"}, MemoSet={"empty", "a2"})
+BIND_U2 = dict(Mode="leaf", Depth=2, Width=2, NodeKinds={"tuple"}, AtomSet={"int", "str"}, SmallDepth=1,
+               LeafSet={"uSpt", "uptS", "uis"}, MemoSet={"empty"})
 PIECES = {"id": ["T", "S", "foo_1"], "dots": ["..."], "bad": ["1bad", "a-b", "T,", "..", "....", "T..."]}
 
 
@@ -75,6 +77,8 @@ def main(tier):
         # first-use binding of T must survive whatever the leaf checks do to the context (a union member
         # that is rejected after binding and rolled back): leaf-mode table with S = 'T'
         P.run_table(chk, "C09", BIND_U, "bind", ["Rollback", "Monotone", "Idempotent"])
+        # ... and whatever the is_leaf tests do while flattening (a PyTree member of a union rejecting a subtree)
+        P.run_table(chk, "C09", BIND_U2, "bind-union-pytree", ["Rollback", "Monotone", "Idempotent"])
         if tier == "thorough":
             for i, u in enumerate(THOROUGH):
                 n2, nb2 = P.run_table(chk, "C09", u, f"thorough{i}", P.STRUCT_INVS)
